@@ -589,6 +589,53 @@ fn zero_extent(rep: &mut Report) {
     }
 }
 
+/// C13 / C06 (bounded stand-in): Debug under the flag sets CBMC cannot run (`{:#?}` through PadAdapter does not terminate
+/// there): the array's output equals its slice's, and the iterator's equals `GenericArrayIter(<remaining slice>)`, natively.
+fn debug_flags(rep: &mut Report) {
+    struct Tup<'a, S: ?Sized>(&'a S);
+    impl<'a, S: core::fmt::Debug + ?Sized> core::fmt::Debug for Tup<'a, S> {
+        fn fmt(&self, f: &mut core::fmt::Formatter) -> core::fmt::Result { f.debug_tuple("GenericArrayIter").field(&self.0).finish() }
+    }
+    let mut fails: Vec<(&str, String)> = Vec::new();
+    let mut ncases = 0usize;
+    macro_rules! flags { ($prop:expr, $what:expr, $a:expr, $b:expr; $($spec:literal),*) => { $(
+        ncases += 1;
+        let (x, y) = (format!($spec, $a), format!($spec, $b));
+        if x != y { fails.push(($prop, format!("{} under `{}`: {:?} instead of {:?}", $what, $spec, x, y))); }
+    )* } }
+    macro_rules! one { ($T:ty, $N:ty, $gen:expr) => { {
+        mark("C13", "Debug flags", <$N>::USIZE, 0);
+        let a: GenericArray<$T, $N> = GenericArray::generate($gen);
+        let v: Vec<$T> = (0..<$N>::USIZE).map($gen).collect();
+        flags!("C13", concat!("Debug of GenericArray<", stringify!($T), ", ", stringify!($N), ">"), a, &v[..];
+               "{:?}", "{:#?}", "{:12?}", "{:<7.2?}", "{:#12.1?}", "{:+?}", "{:#x?}", "{:#X?}", "{:08?}", "{:#010x?}", "{:^9?}");
+        let n = <$N>::USIZE;
+        for front in 0..=n { for back in 0..=(n - front) {
+            mark("C06", "iterator Debug flags", n, front * 8 + back);
+            let mut it = a.clone().into_iter();
+            for _ in 0..front { it.next(); }
+            for _ in 0..back { it.next_back(); }
+            flags!("C06", format!("Debug of GenericArrayIter<{}, {}> after {} next / {} next_back", stringify!($T), stringify!($N), front, back), it, Tup(&v[front..n - back]);
+                   "{:?}", "{:#?}", "{:#x?}", "{:8.1?}", "{:#08?}");
+        } }
+    } } }
+    one!(u8, U0, |i| i as u8);
+    one!(u8, U1, |i| (i as u8).wrapping_mul(37).wrapping_add(200));
+    one!(u8, U3, |i| (i as u8).wrapping_mul(37).wrapping_add(200));
+    one!(u8, U5, |i| (i as u8).wrapping_mul(97));
+    one!(i32, U4, |i| i as i32 * -1000 + 5);
+    one!(f64, U3, |i| if i == 1 { f64::NAN } else { i as f64 * 1.25 - 0.5 });
+    one!(String, U2, |i| format!("s\"{}\n", i));
+    one!(String, U0, |i| format!("{}", i));
+    one!(GenericArray<u8, U2>, U3, |i| GenericArray::<u8, U2>::generate(|j| (i * 2 + j) as u8));
+    one!(Option<u16>, U4, |i| if i % 2 == 0 { Some(i as u16 * 300) } else { None });
+    rep.cases += ncases;
+    for (prop, why) in fails {
+        rep.failed += 1;
+        println!("FAIL property={} op=debug-flags N=0 k=0 : {}", prop, why);
+    }
+}
+
 /// C15 (bounded stand-in): the boxed constructors and the O(1) conversions handle an array far larger than the thread's
 /// stack.  Each case runs on a 256 KiB-stack thread of a re-executed child process (a stack overflow kills the child,
 /// not the report).  4 MiB of u8.
@@ -639,6 +686,7 @@ fn main() {
         hex_case::<U1024>(&mut rep, false);
     }
     if wanted("C02") || wanted("C10") || wanted("C11") { zero_extent(&mut rep); }
+    if wanted("C13") || wanted("C06") { debug_flags(&mut rep); }
     if !(wanted("C04") || wanted("C05") || wanted("C09") || wanted("C15") || wanted("C16")) {
         println!("CASES {} FAILED {}", rep.cases, rep.failed);
         return;
